@@ -22,8 +22,9 @@ C08(e) ==
   /\ IsMove(e) =>
        LET q == Move(seq, pos, e.op, e.p) IN
        /\ Returns(e.op) => e.ret = Inside(seq, q)
-       /\ (Returns(e.op) /\ Inside(seq, q)) =>
-            /\ e.has = TRUE
+       \* the harness reads Index()/Key()/Value() only after a successful move, and not after every one (e.has)
+       /\ (e.has => Returns(e.op) /\ Inside(seq, q))
+       /\ (Returns(e.op) /\ Inside(seq, q) /\ e.has) =>
             /\ e.key = seq[q + 1][1]          \* Index() / Key() of the position
             /\ e.val = seq[q + 1][2]          \* Value() of the position
 Obl(p, e) ==
